@@ -231,7 +231,7 @@ class Tracer:
         self.events = []
         self.conv = None
         self.nodeids = {}
-        self.stack = []      # [node, charged]
+        self.stack = []      # [node, charged, children that returned a value]
         self.installed = False
         self.maxevents = 20000
 
@@ -381,7 +381,7 @@ class Tracer:
 
     def on_enter(self, node):
         self.flush_uncharged()
-        self.stack.append([node, False])
+        self.stack.append([node, False, 0])
 
     def on_charge(self, node, state, raised):
         if self.stack and self.stack[-1][0] is node:
@@ -393,23 +393,21 @@ class Tracer:
         self.flush_uncharged()
         if self.stack and self.stack[-1][0] is node:
             self.stack.pop()
+            if self.stack:
+                self.stack[-1][2] += 1
         if self.kind_of.get(type(node)) == 'bin' and getattr(node, 'op', None) == '**':
             self.emit({'e': 'o', 'name': 'pow', 'orc': {'t': 'val', 'v': self.conv.scalar(v) or {'t': 'opaque', 'type': 'container'}}})
         self.emit({'e': 'x', 'id': self.nid(node), 'v': self.conv.deep(v)})
 
     def on_exit_exc(self, node, e):
         self.flush_uncharged()
+        done = 0
         if self.stack and self.stack[-1][0] is node:
-            self.stack.pop()
+            done = self.stack.pop()[2]
         ex = self.conv.exc(e)
-        if self.kind_of.get(type(node)) == 'bin' and getattr(node, 'op', None) == '**' and not self._from_child(e, node):
+        if self.kind_of.get(type(node)) == 'bin' and getattr(node, 'op', None) == '**' and done == 2:
             self.emit({'e': 'o', 'name': 'pow', 'orc': {'t': 'raise', 'e': ex}})
         self.emit({'e': 'e', 'id': self.nid(node), 'cls': ex['exc'], 'name': ex['name']})
-
-    def _from_child(self, e, node):
-        # an exception that propagated out of a child evaluation has already been reported
-        # by that child's exit event: it is the most recent 'e' event
-        return bool(self.events) and self.events[-1].get('e') == 'e' and self.events[-1].get('id') != self.nid(node)
 
 
 TRACER = Tracer()
